@@ -6,7 +6,6 @@ generated definition and breaks the proof.
 -/
 import JubakoModel.Model.DirWriter
 import JubakoModel.Model.DirLayout
-import JubakoModel.Model.Order
 import JubakoModel.Generated.FuncsDir
 import JubakoModel.Lemmas.FuncsBytes
 import JubakoModel.Lemmas.Codec
@@ -106,19 +105,6 @@ theorem gen_indexTail (i : IndexInfo) (hfd : i.freeData.length = 4) (hn : i.name
   simp only [IndexInfo.encode, Generated.indexTailWrites, writesBytes, List.nil_append, List.map_append, List.map_cons,
     List.map_nil, List.flatten_append, List.flatten_cons, List.flatten_nil, h1, h2, l1, pstringEncode, List.append_nil]
   simp
-
-/-! ### the creator's order on array values -/
-
-/-- **`writerArrCmp` is the body of the creator's `Array::cmp` (`creator/directory_pack/value.rs`)
-    translated on every run**: inline prefix bytes first, then the value id in its store, then the
-    total length (`Ordering.then` spelt as the nested `match` of the source). -/
-theorem gen_writerArrCmp (vs : VStore) (fixed : Nat) (a b : Bytes) :
-    writerArrCmp vs fixed a b =
-      Generated.writerArrayCmp (lexCmp (a.take fixed) (b.take fixed)) (vs.idOf (a.drop fixed)) (vs.idOf (b.drop fixed))
-        a.length b.length := by
-  unfold writerArrCmp Generated.writerArrayCmp
-  cases lexCmp (a.take fixed) (b.take fixed) <;> simp [Ordering.then] <;>
-    cases compare (vs.idOf (a.drop fixed)) (vs.idOf (b.drop fixed)) <;> simp [Ordering.then]
 
 /-! ### the layout header: one property -/
 
